@@ -10,7 +10,7 @@ PROP = {
                "encode(decoded) is a prefix of the boolean-canonicalised input, the input is not shorter than its declared fields, fields equal the independent decoder's slices; "
                "signed accept => C13 predicate.",
  'level_note': 'Prefix taken modulo the ACK/HandshakeAck boolean byte (DESIGN 7). Completeness (decode rejecting what the reference accepts) is only labelled, not judged. '
-               'Inputs <= 192 bytes in raw mode, ~1 KB in structured mode.',
+               'Inputs <= 192 bytes in raw mode, ~1 KB in structured mode. Second compiler: the same tapes also run against a g++ -O2 ASan/UBSan build of the code under test (engine \'tape-rc (second compiler…)\'), because the two compilers instrument and optimise undefined behaviour differently (e.g. abs(INT64_MIN) is only reported by g++\'s UBSan, and clang can fold such UB into a correct-looking result); failing tapes of that engine are kept as *.gcc.tape and replayed with that build.',
  'assumptions': ['OpenSSL HMAC-SHA256 reference', '64-bit size_t (the build under test)'],
- 'tiers': {'quick': [rc(40000), fuzz(15, 1, max_len=212)],
-           'thorough': [rc(200000, W), fuzz(600, W, max_len=212)]}}
+ 'tiers': {'quick': [rc(40000), fuzz(15, 1, max_len=212), rc(40000, suffix='_gcc')],
+           'thorough': [rc(200000, W), fuzz(600, W, max_len=212), rc(200000, 4, suffix='_gcc')]}}
